@@ -1017,6 +1017,10 @@ def run(ctx):
         if rule_ == 'C01.7-envelope-gate' or inst in ('return-0-only-after-commit', 'single-commit'):
             r8.check(ok, inst, where, detail, path)
     r8.expect_min(4)
+    r10 = rep.rule('C07.10-smtp-transaction-state', 'R-TYPESTATE', 'qmail-smtpd: what is queued at DATA is the sender and the recipients of the transaction that DATA closes - an accepted MAIL opens a fresh transaction (no recipient of an abandoned one survives), rejected commands change nothing, DATA closes the transaction (decided by the handler summaries of C08.1, run here on the same program database)')
+    for inst_, v_ in sorted(_lt.borrow(ctx, 'C08', {'C08.1-handler-contracts'}).items()):
+        r10.check(v_[0], inst_.split('/', 1)[1], v_[1], v_[2], v_[3])
+    r10.expect_min(5)
 
     # ---------------------------------------------------------------- 6. disconnect
     r6 = rep.rule('C07.6-disconnect', 'R-GUARD', 'each daemon\'s read wrapper never returns <= 0 (EOF/error/timeout end the process) and reaches no qmail_close')
